@@ -65,6 +65,20 @@ AXES = {
             ("n", SIZES),
         ],
     },
+    "kk_cnls_big": {
+        # CNLS tests on spectra that are large and noisy enough for the arrival-count based early termination
+        # of the automatic num_RC range to fire: the progress accounting of that path depends on how far the
+        # pool's task handler has consumed the argument generator (prefetch depth) and on the worker count
+        "entry": "evaluate_log_F_ext",
+        "axes": [
+            ("entry", ["evaluate_log_F_ext", "perform_kramers_kronig_test", "perform_exploratory_kramers_kronig_tests"]),
+            ("admittance", [False, True]),
+            ("add_capacitance", [True, False]),
+            ("add_inductance", [True, False]),
+            ("noise", [0.5, 1.0]),
+            ("n", [19, 20, 21]),
+        ],
+    },
     "zhit": {
         "entry": "perform_zhit",
         "axes": [
@@ -141,8 +155,8 @@ AXES = {
 
 # relative number of runs per entry group (cheap groups get more)
 GROUP_WEIGHTS = {
-    "quick": {"kk_single": 16, "kk_explore": 8, "kk_eval": 12, "zhit": 26, "drt_trnnls": 8, "drt_lm": 5, "drt_bht": 4, "drt_mrq": 2, "drt_other": 1, "fit": 18},
-    "thorough": {"kk_single": 18, "kk_explore": 10, "kk_eval": 14, "zhit": 22, "drt_trnnls": 7, "drt_lm": 5, "drt_bht": 5, "drt_mrq": 3, "drt_other": 1, "fit": 15},
+    "quick": {"kk_single": 16, "kk_explore": 8, "kk_eval": 12, "kk_cnls_big": 2, "zhit": 26, "drt_trnnls": 8, "drt_lm": 5, "drt_bht": 4, "drt_mrq": 2, "drt_other": 1, "fit": 18},
+    "thorough": {"kk_single": 18, "kk_explore": 10, "kk_eval": 14, "kk_cnls_big": 1, "zhit": 22, "drt_trnnls": 7, "drt_lm": 5, "drt_bht": 5, "drt_mrq": 3, "drt_other": 1, "fit": 15},
 }
 
 
@@ -196,6 +210,15 @@ def build_workload(group, opts, rng):
     }
     kw = {}
     wl = {"entry": entry, "group": group, "options": dict(opts), "data": data, "kwargs": kw}
+    if group == "kk_cnls_big":
+        wl["entry"] = opts["entry"]
+        data["cdc"] = rng.choice(SPECTRA[:2])
+        data["logf"] = [5, 0]
+        data["noise_pct"] = opts["noise"]
+        data["mask"] = []
+        kw.update({"test": "cnls", "num_F_ext_evaluations": 0, "admittance": opts["admittance"], "add_capacitance": opts["add_capacitance"],
+                   "add_inductance": opts["add_inductance"], "max_nfev": 100, "timeout": 60})
+        return wl
     if group.startswith("kk_"):
         for k in ("test", "admittance", "add_capacitance", "add_inductance", "num_F_ext_evaluations", "rapid_F_ext_evaluations"):
             kw[k] = opts[k]
